@@ -14,6 +14,7 @@ func init() {
 				"an open path's ends are produced only by these calls; when they are dead the stroke has no caps and the two offset sides are joined through the bare end points (InflatePaths64({{0,0},{100,0}},10,Miter,Butt) returns [])"),
 			ruleEndDispatch("C10.end"),
 			ruleFreshScratch("C10.fresh", "ClipperOffset", "pathOut"),
+			ruleIntersectPointMirror("C10.ipt"),
 			ruleScratchField("C10.scratch", "ClipperOffset", "pathOut", 4, "every stroke and ring is appended to the solution by reference; writing the scratch again without a fresh slice makes the next ring start with the previous one's points (Joined: the second side of the loop) or overwrite it"),
 			ruleReach("C10.reach", []reachReq{{entry: "InflatePaths64", must: append([]string{"(ClipperOffset).offsetOpenPath", "(ClipperOffset).offsetOpenJoined", "(ClipperOffset).offsetPolygon", "Ellipse64"}, offsetCapMech...),
 				whyMust: "every open end type is served by one of these constructors; an unreachable one means that end type cannot be produced"}}),
@@ -36,6 +37,7 @@ func init() {
 				return r
 			}()),
 			ruleLineExtractor("C11.extract"),
+			ruleRectSkipOnly("C11.skip-only", "(RectClipLines64).Execute", []string{"(RectClip64).executeInternalPath64"}),
 			ruleInitOnlyField("C11.vertex-fixed", "OutPt2", "pt", 2, "every vertex of a clipped line is an input vertex or a border intersection; overwriting the previous output vertex ('extending the segment') loses the far end of a spike that doubles back on itself"),
 			ruleSegIntersectMirror("C11.mirror.seg"),
 			ruleLineScanStart("C11.start"),
